@@ -73,8 +73,39 @@ type Case struct {
 	// next choice (mod the number of parked requests, lowest request index first) picks
 	// the one that proceeds; an exhausted list picks the lowest.
 	Choices []int `json:"choices,omitempty"`
-	// Clients: store programs.
+	// Clients: store programs; owners: client i works on its OWN keys /o<i>/a../c only.
 	Clients [][]StoreOp `json:"clients,omitempty"`
+	// Pre: store / owners: the prefix history of the long-lived store - puts and deletes
+	// (key index < 3: storeKeys, otherwise /h/<index>) applied by one goroutine before the
+	// concurrent phase starts on the SAME store.
+	Pre []StoreOp `json:"pre,omitempty"`
+	// Churn: sched / mix / errs: what the server's store went through before the server was
+	// started on it - every entry toggles scratch object <index> (absent: Put, present:
+	// Delete, a successful one); what is left at the end is deleted as well.
+	Churn []int `json:"churn,omitempty"`
+	// Iters: owners: how many times every client runs its operation list.
+	Iters int `json:"iters,omitempty"`
+	// Lister: owners: prefixes (0 "/", 1 "/h/", 2.. "/o<n-2>/") a further goroutine lists
+	// round-robin while the owners run.
+	Lister []int `json:"lister,omitempty"`
+	// Prog: errs: a sequential request program on one long-lived server whose failing
+	// requests are repeated.
+	Prog []ErrReq `json:"prog,omitempty"`
+}
+
+// ErrReq is one entry of an errs program.
+type ErrReq struct {
+	// Fail: "" = ordinary request (Step).  Otherwise the class of a request that is meant to
+	// fail and to change nothing: long-password (PUT /users/{Step.Name} with a password of
+	// Len bytes, Var 1 = two-byte characters), bad-json (Step.Op put_user / put_shortcut /
+	// put_service, body variant Var), bad-method (Var picks method and path), unknown-user,
+	// wrong-password, missing-object, bad-sso (all four: Step is the request).
+	Fail  string `json:"fail,omitempty"`
+	Step  Step   `json:"step"`
+	Len   int    `json:"len,omitempty"`
+	Var   int    `json:"var,omitempty"`
+	Rep   int    `json:"rep,omitempty"`   // failing requests: sent Rep times (1..8)
+	Burst bool   `json:"burst,omitempty"` // the repetitions are sent at the same time
 }
 
 var storeKeys = []string{"/k/a", "/k/b", "/j/c"}
@@ -394,6 +425,7 @@ func prepare(c Case, raw bool) (*idpsrv.Env, *state0, string) {
 	env := idpsrv.NewEnv(c.Seed)
 	env.Raw = raw
 	s0 := &state0{users: map[string]s0user{}, services: map[string]int{}, shortcuts: map[string]string{}, sessions: map[string]s0session{}}
+	applyChurn(env, c.Churn)
 	for _, s := range c.Init {
 		switch s.Op {
 		case "seed_user":
@@ -1015,10 +1047,34 @@ func checkStore(c Case) pbt.Result {
 		res.Classes = append(res.Classes, "store:with-failing-operation")
 		res.NonTrivial = true
 	}
+	if len(c.Pre) > 64 {
+		return pbt.Result{Skip: true}
+	}
+	res.Classes = append(res.Classes, "store:prefix-history:"+bucket(preDeletes(c.Pre))+"-successful-deletes")
 	for rep := 0; rep < repetitions("store"); rep++ {
 		st := &samlidp.MemoryStore{}
 		var clock atomic.Int64
-		hist := make([][]porcupine.Operation, len(c.Clients))
+		hist := make([][]porcupine.Operation, len(c.Clients)+1)
+		// the prefix history of the long-lived store: one more (sequential) client whose
+		// operations all return before the concurrent phase begins
+		for _, o := range c.Pre {
+			in := sIn{Op: o.Op, Key: keyName(o.Key), Val: o.Val}
+			var out sOut
+			call := clock.Add(1)
+			var err error
+			switch o.Op {
+			case "put":
+				err = st.Put(in.Key, o.Val)
+			case "delete":
+				err = st.Delete(in.Key)
+			default:
+				continue
+			}
+			if err != nil {
+				out.Err = err.Error()
+			}
+			hist[len(c.Clients)] = append(hist[len(c.Clients)], porcupine.Operation{ClientId: len(c.Clients), Input: in, Call: call, Output: out, Return: clock.Add(1)})
+		}
 		start := make(chan struct{})
 		gids := make([]int64, len(c.Clients))
 		finished := make([]atomic.Bool, len(c.Clients))
@@ -1180,8 +1236,15 @@ func check(c Case) pbt.Result {
 		r = checkMix(c)
 	case "store":
 		r = checkStore(c)
+	case "owners":
+		r = checkOwners(c)
+	case "errs":
+		r = checkErrs(c)
 	default:
 		return pbt.Result{Skip: true}
+	}
+	if !r.Skip && (c.Kind == "sched" || c.Kind == "mix" || c.Kind == "errs") {
+		r.Classes = append(r.Classes, "server-store-history:"+bucket(churnDeletes(c.Churn))+"-successful-deletes")
 	}
 	seen := map[string]bool{}
 	var cl []string
@@ -1206,6 +1269,7 @@ type world struct {
 	shortcuts map[string]int
 	nsess     int
 	dead      map[int]bool
+	perEntity []int // the one metadata variant per entity this world uses
 }
 
 // genWorld draws the seeded state and the sequential setup.
@@ -1226,6 +1290,7 @@ func genWorld(t *rapid.T, c *Case) *world {
 	// (variants 4 and 5 are the ones with everything real SPs publish: several descriptors,
 	// attribute consuming services, ResponseLocation, further role descriptors)
 	perEntity := []int{pick(t, "variant-e0", []int{0, 1, 4, 4}), pick(t, "variant-e1", []int{2, 3, 5, 5})}
+	w.perEntity = perEntity
 	ns := rapid.IntRange(1, 3).Draw(t, "nservices")
 	for i := 0; i < ns; i++ {
 		s := Step{Op: "put_service", Name: idpsrv.ServiceNames[i], MD: perEntity[rapid.IntRange(0, 1).Draw(t, "entity")], Pw: -1}
@@ -1482,20 +1547,37 @@ func genMixBody(t *rapid.T, c *Case, maxReqs int) {
 	}
 }
 
+var itersSched = []int{1, 20, 200, 600, 1500, 1500, 3000}
+var itersRace = []int{1, 20, 100, 300, 300}
+
 func genSched(t *rapid.T) Case {
+	switch k := rapid.IntRange(0, 19).Draw(t, "harness"); {
+	case k >= 18:
+		return genErrs(t, true)
+	case k >= 16:
+		return genOwners(t, itersSched)
+	}
 	c := Case{Kind: "sched"}
 	genMixBody(t, &c, 4)
+	c.Churn = genChurn(t)
 	c.Choices = rapid.SliceOfN(rapid.IntRange(0, 3), 0, 28).Draw(t, "choices")
 	return c
 }
 
 func genRace(t *rapid.T) Case {
-	if rapid.IntRange(0, 7).Draw(t, "kind") < 2 {
+	switch k := rapid.IntRange(0, 31).Draw(t, "kind"); {
+	case k < 8:
 		c := Case{Kind: "mix"}
 		genMixBody(t, &c, 5)
+		c.Churn = genChurn(t)
 		return c
+	case k == 8:
+		return genErrs(t, false)
+	case k < 11:
+		return genOwners(t, itersRace)
 	}
 	c := Case{Kind: "store"}
+	c.Pre = genPre(t, 0, 8)
 	nc := rapid.IntRange(2, 4).Draw(t, "clients")
 	for i := 0; i < nc; i++ {
 		n := rapid.IntRange(1, 6).Draw(t, "nops")
@@ -1644,16 +1726,22 @@ var propSched = &pbt.Prop[Case]{
 		"{sso creds/cookie, launch, login, put/del/get/list service, put/del/get/list user, put/del/get/list shortcut, del/get/list session, metadata} run under a parking Store wrapper; the case's choice list picks which parked request proceeds at every store operation. " +
 		"Exhaustive: for every unordered pair of 38 request templates (every handler, its error paths and the readers), all choice strings of 5 (thorough 8) binary decisions. " +
 		"race job: the same mixes (2-5 requests) free-running over the bare MemoryStore and MemoryStore programs of 2-4 clients x <= 6 operations on 3 keys / 3 prefixes, including Puts of unencodable values and Gets into undecodable targets that must fail and leave the store usable (porcupine, sequential map model; deadlock predicate), each run 3 times under the race detector. " +
-		"non-trivial: at least two requests touch the registry lock or the same store key and one of them writes; store programs with >= 2 clients and a writer. distinct: sha256 of the JSON case.",
+		"Long-lived stores and servers: every store program is preceded by a generated prefix history of 0-64 puts and (mostly successful) deletes on the same store, and the store under every server (sched, mix, errs) has seen 0-64 objects come and go before the server starts. " +
+		"owners: 2-5 goroutines each own three keys and run a generated list of 2-12 Put/Delete/Get/List-own-prefix operations 1-3000 times over on ONE store (after such a prefix history) while a further goroutine lists prefixes; every Get / own List must show the owner's last completed write, the quiescent state must be exactly the owners' last writes (per-key sequential consistency, implied by linearizability; no search). " +
+		"errs: a sequential program on ONE server in which requests meant to fail and to change nothing (passwords of 73-1000 bytes that bcrypt refuses, malformed JSON / XML bodies, methods no route accepts, unknown users, wrong passwords, missing objects, unacceptable SSO) are sent 1-8 times (one after the other or at once) before and between ordinary requests (credential logins and SSO, password PUTs, registrations, launches, readers); every request completes, and every ordinary request gets the status class and SAMLResponse-or-not it gets on a fresh server that served the ordinary requests only. A request counts as never completing only by a state predicate (it and every goroutine running or started by the library are in wait states only another goroutine can end: mutex, channel send/receive, Cond, semaphore, WaitGroup), confirmed on 25 snapshots and reproduced at the same program entry on a second fresh server; a watchdog expiry alone is inconclusive. " +
+		"Exhaustive: 16 failing-request templates x repetitions {1,3,4,5,8} x {sequential, burst} x 3 follow-up request lists; fixed owner programs x store age {0,8,15,16,17,32 successful deletes} x 2-4 owners x lister. " +
+		"non-trivial: at least two requests touch the registry lock or the same store key and one of them writes; store programs with >= 2 clients and a writer; owner programs with >= 2 writers and >= 64 operations; errs programs with an ordinary request after a failing one. distinct: sha256 of the JSON case.",
 	Gen:   genSched,
 	Check: check,
 	Reset: fix.Reset,
-	Enums: []pbt.Enum[Case]{{Name: "grant-orders-for-request-pairs", Each: enumPairs}, {Name: "store-programs-with-failing-operations", Each: enumFailingStoreOps}},
+	Enums: []pbt.Enum[Case]{{Name: "grant-orders-for-request-pairs", Each: enumPairs}, {Name: "store-programs-with-failing-operations", Each: enumFailingStoreOps},
+		{Name: "repeated-failing-requests-x-repetitions-x-following-requests", Each: enumRepeatedFailing}, {Name: "owner-partitioned-programs-x-store-age", Each: enumOwnerStress}},
 	Assumptions: []string{
 		"schedule control is at store-operation granularity: a granted request runs until its next store operation, its end, or a mutex it cannot get",
 		"quiescence and deadlock are decided from runtime.Stack(all) goroutine headers (wait reasons sync.RWMutex.RLock, sync.RWMutex.Lock, sync.Mutex.Lock); a watchdog expiry is inconclusive (case skipped), never a verdict",
 		"replies are judged with interleaving-independent clauses: exactly one well-formed reply, no stored hash disclosed, every SAMLResponse justified by a password or unexpired session and by a registration that existed at some point of the concurrent phase",
-		"no request of the concurrent phase hashes a password (users are seeded with low-cost hashes)",
+		"no request of the concurrent phase hashes a password (users are seeded with low-cost hashes); errs programs of the sched job do (sequentially, at full cost)",
+		"errs: a request meant to fail that is answered below 400 on a state-changing method, or that sets a session cookie, ends the comparison with the fresh server for the rest of the program (the property is silent); the reference run is the same implementation without the failing requests (metamorphic, not a model)",
 	},
 }
 
